@@ -335,9 +335,10 @@ func ruleR28_1(c *Check) {
 		"a rejected write that already changed the transaction leaves it in a state that later commits (or double counts) the rejected entry")
 	f := w.F("badger.Txn.modify")
 	stores := selOr(selStore(w.Field("badger.Txn.pendingWrites")), selStore(w.Field("badger.Txn.duplicateWrites")), selStore(w.Field("badger.Txn.conflictKeys")))
-	n := r.DomAll(f, "state changed only after isBanned", stores, 0, selCallName(w, "badger.DB.isBanned"), 0)
-	r.Exists(n >= 3, f, "state stores", nil, "expected stores to pendingWrites, duplicateWrites and conflictKeys")
-	r.DomAll(f, "state changed only after checkSize", stores, 0, selCallName(w, "badger.Txn.checkSize"), 0)
+	// (depth 1: a store may sit in a helper called from modify; the call site then stands for it)
+	r.DomAll(f, "state changed only after isBanned", stores, 1, selCallName(w, "badger.DB.isBanned"), 0)
+	r.Exists(len(f.SitesInl(stores)) >= 3, f, "state stores", nil, "expected stores to pendingWrites, duplicateWrites and conflictKeys")
+	r.DomAll(f, "state changed only after checkSize", stores, 1, selCallName(w, "badger.Txn.checkSize"), 0)
 	for _, s := range f.Sites(stores) {
 		ok := w.errNilGuard(f, s, w.Func("badger.Txn.checkSize")) && w.errNilGuard(f, s, w.Func("badger.DB.isBanned"))
 		r.Check(ok, f, "state changed only if the checks succeeded", s, "a store is reachable although checkSize or isBanned returned an error")
@@ -724,7 +725,7 @@ func ruleR28_5(c *Check) {
 		okArg := false
 		if len(call.Args) == 1 {
 			if conv, isCall := unparen(w.Origin(f, call.Args[0])).(*ast.CallExpr); isCall && w.Callee(conv) == w.Obj("y.BytesToU64") && len(conv.Args) == 1 {
-				if se, isSl := unparen(w.Origin(f, conv.Args[0])).(*ast.SliceExpr); isSl && isKey(se.X) && se.Low != nil && w.fieldOf(se.Low) == off {
+				if se, isSl := unparen(w.Origin(f, conv.Args[0])).(*ast.SliceExpr); isSl && isKey(se.X) && se.Low != nil && w.fieldOf(w.Origin(f, se.Low)) == off {
 					okArg = true
 				}
 			}
